@@ -304,3 +304,8 @@ type rngSource struct{ r *Rng }
 
 func (s rngSource) Int63() int64 { return int64(s.r.U64() >> 1) }
 func (s rngSource) Seed(int64)   {}
+
+func fromB64(s string) []byte {
+	b, _ := base64.StdEncoding.DecodeString(s)
+	return b
+}
